@@ -898,17 +898,24 @@ pub fn now_ns() -> u64 {
     lock().now_ns
 }
 
-/// Charge simulated CPU time to the caller (in slices, each a scheduling point).
+/// Simulated CPU work of the caller, in slices. The caller computes on a core of its own: while it
+/// is busy the other threads run (and the clock jumps if nobody else can), so N threads computing
+/// for d all finish after d, as on a machine with enough cores - not after N*d as they would if
+/// every thread's work were charged to the one global clock. A signal queued for the caller is
+/// delivered at the next slice boundary.
 pub fn cpu_work(ns: u64, slice_ns: u64) {
     let mut left = ns;
     while left > 0 {
         let d = left.min(slice_ns.max(1));
-        {
-            let mut st = lock();
-            st.now_ns = st.now_ns.saturating_add(d);
-        }
         left -= d;
         point("cpu");
+        if !is_active() {
+            return;
+        }
+        let deadline = now_ns().saturating_add(d);
+        while is_active() && now_ns() < deadline {
+            _ = block(Reason::Sleep, Some(deadline));
+        }
     }
 }
 
